@@ -1,5 +1,5 @@
 # replay of a bounded stand-in violation (C04): re-run native/c04_reorder.py
 import sys
-print("optimize [Squeezed(0.7), Coherent(0.6, 0.3), Rgate(0.2)]: the optimised program ['Squeezed(0.7, 0) | (q[0])', 'Rgate(0.2) | (q[0])'] prepares a different state (moments [0.0, 0.3969, 0.0, 1.8272, 0.0, 3.9049, 0.5754, 1.8132] vs [1.0531, 1.0, 1.1053, 1.0, 0.5753, 1.0, 0.36, 0.36])")
+print('gbs compile [mode 1 deleted, mode 3 created, modes 0,2 measured]: merged MeasureFock acts on modes [0, 3], the program measures modes [0, 2]')
 print('REPLAY-VIOLATION')
 sys.exit(1)
